@@ -230,15 +230,31 @@ def check(pid, tier="quick", seed=0, jobs=None, only=None, verbose=False):
         exit_code = max(exit_code, 1)
         lines.append("VIOLATION property=%s replay=%s obligation=%s%s" % (pid, rp, n["name"], suffix))
     for b in bounded_fail:
-        if b["name"] in known_bounded:
-            continue
+        kf = known_bounded.get(b["name"])
+        if kf is not None:
+            # a recorded finding of a stand-in names the class of failing inputs by a predicate over the failure
+            # record (region); failures outside it are still violations
+            region = kf.get("region") or "True"
+
+            def in_region(f, region=region):
+                try:
+                    return bool(eval(region, {"__builtins__": {"len": len, "any": any, "all": all, "str": str}}, dict(f)))
+                except Exception:
+                    return False
+            rest = [f for f in b["failures"] if not (isinstance(f, dict) and in_region(f))]
+            b["known_failures_suppressed"] = len(b["failures"]) - len(rest)
+            if not rest:
+                continue
+            b = dict(b, failures=rest)
         rp = os.path.join(ROOT, REPLAYS, pid, "bounded_" + san(b["name"]) + ".json")
         json.dump({"property": pid, "obligation": "bounded/" + b["name"], "failures": b["failures"][:20],
                    "replay": b.get("replay")}, open(rp, "w"), indent=1, default=str)
         violations += 1
         exit_code = max(exit_code, 1)
         lines.append("VIOLATION property=%s replay=%s obligation=bounded/%s" % (pid, rp, b["name"]))
-    # order: violations first is irrelevant; print everything
+    # a violation that was replayed/found outranks "undecided" and checker errors elsewhere in the same run
+    if violations:
+        exit_code = 1
     for l in kf_lines:
         print(l)
     for l in lines:
